@@ -422,6 +422,7 @@ ABTI_ythread_atomic_get_joiner(ABTI_ythread *p_ythread)
         } else {
             /* This case means a join request is issued and the joiner is
              * setting p_link.  Wait for it. */
+            ABTV_REACH("join.exiting_ult_waits_for_p_link");
             do {
                 p_link = ABTD_atomic_acquire_load_ythread_context_ptr(
                     &p_ctx->p_link);
@@ -692,8 +693,10 @@ static inline void ABTI_ythread_schedule(ABTI_global *p_global,
             ABTI_thread_terminate(p_global, p_local_xstream, p_thread);
         }
     } else if (request_op == ABTI_THREAD_HANDLE_REQUEST_CANCELLED) {
+        ABTV_REACH("cancel.at_pop");
         /* If p_thread is cancelled, there's nothing to do. */
     } else if (request_op == ABTI_THREAD_HANDLE_REQUEST_MIGRATED) {
+        ABTV_REACH("migrate.at_pop");
         /* If p_thread is migrated, let's push p_thread back to its pool. */
         ABTI_pool_add_thread(p_thread, ABT_POOL_CONTEXT_OP_THREAD_MIGRATE);
     }
